@@ -7,6 +7,23 @@ mod verif_standins {
 
     fn rng() -> rand::rngs::StdRng { rand::rngs::StdRng::seed_from_u64(0x5eed) }
 
+    /// uniformly random, except that the 64-byte fills number `start .. start+width` are all zero
+    struct ZeroWindow { inner: rand::rngs::StdRng, fills: usize, start: usize, width: usize }
+    impl rand::RngCore for ZeroWindow {
+        fn next_u32(&mut self) -> u32 { self.inner.next_u32() }
+        fn next_u64(&mut self) -> u64 { self.inner.next_u64() }
+        fn fill_bytes(&mut self, dest: &mut [u8]) {
+            use rand::RngCore;
+            self.inner.fill_bytes(dest);
+            if dest.len() == 64 {
+                if self.fills >= self.start && self.fills < self.start + self.width { for b in dest.iter_mut() { *b = 0; } }
+                self.fills += 1;
+            }
+        }
+        fn try_fill_bytes(&mut self, dest: &mut [u8]) -> Result<(), rand::Error> { self.fill_bytes(dest); Ok(()) }
+    }
+    impl rand::CryptoRng for ZeroWindow {}
+
     // The checks are macros instantiated at concrete groups, not generic functions: a change of trait bounds on the
     // functions under test must not stop the stand-in from compiling.
 
@@ -60,6 +77,13 @@ mod verif_standins {
         let p = PedersenParameters::<G, N>::new(&mut rng);
         let q = PedersenParameters::<G, N>::new(&mut rng);
         let chal = |x: &PedersenParameters<G, N>| ChallengeBuilder::new().with(x).finish().to_scalar();
+        // generation under randomness with an all-zero window at every scalar-sized draw: still only non-identity generators
+        for start in 0..(N + 3) {
+            let mut zr = ZeroWindow { inner: rand::rngs::StdRng::seed_from_u64(31 + start as u64), fills: 0, start, width: 1 };
+            let z = PedersenParameters::<G, N>::new(&mut zr);
+            assert!(!bool::from(z.h().is_identity()), "STANDIN PedersenParameters::new: identity h (zero window at 64-byte draw #{})", start);
+            for i in 0..N { assert!(!bool::from(z.gs()[i].is_identity()), "STANDIN PedersenParameters::new: identity generator g[{}] (N = {}, zero window at 64-byte draw #{})", i, N, start); }
+        }
         // generated parameters: h and the g_i are pairwise different, non-identity elements (independent draws)
         for i in 0..N {
             assert!(p.gs()[i] != *p.h(), "STANDIN PedersenParameters::new: generator g[{}] equals h - the commitment is not binding (N = {})", i, N);
